@@ -175,6 +175,154 @@ def enc_ops(limit, ops):
     return f"SR {limit} {len(ops)} " + " ".join(parts)
 
 
+def run_session(loop, limit, ops):
+    """ops: ('C', ok) | ('D', close_fails) | ('F', bytes) | ('E',) | ('R', fails) | ('W', line, fails).
+    One StreamTransport object over its whole life; returns (per-op outcomes, closes, bytes on the
+    last connection) the way the model (Stream.trun) prints them."""
+    from aiomysensors.transport import StreamTransport
+
+    class Reader(asyncio.StreamReader):
+        fail_next = False
+
+        async def readuntil(self, separator=b"\n"):
+            if self.fail_next:
+                self.fail_next = False
+                raise ConnectionResetError("reset by peer")
+            return await super().readuntil(separator)
+
+    class Writer(FakeWriter):
+        fail_next = None       # None | "write" | "drain"
+
+        def __init__(self):
+            super().__init__()
+            self.log = []      # [data, went through]
+
+        def write(self, data: bytes):
+            if self.fail_next == "write":
+                self.fail_next = None
+                raise ConnectionResetError("write failed")
+            self.log.append([bytes(data), True])
+            super().write(data)
+
+        async def drain(self):
+            if self.fail_next == "drain":
+                self.fail_next = None
+                self.log[-1][1] = False     # queued, but reported as failed: not counted as written
+                raise BrokenPipeError("drain failed")
+
+    st = {"next_ok": True, "readers": [], "writers": []}
+
+    class T(StreamTransport):
+        async def _open_connection(self):
+            if not st["next_ok"]:
+                raise ConnectionRefusedError("refused")
+            rd, w = Reader(limit=limit), Writer()
+            st["readers"].append(rd)
+            st["writers"].append(w)
+            return rd, w
+
+    t = T()
+    outs = []
+    for op in ops:
+        try:
+            if op[0] == "C":
+                st["next_ok"] = op[1]
+                try:
+                    loop.run_until_complete(t.connect())
+                    outs.append("ok")
+                except ex.TransportError:
+                    outs.append("CE")
+            elif op[0] == "D":
+                for w in st["writers"]:
+                    w.fail_close = w.fail_wait_closed = False
+                if st["writers"]:
+                    st["writers"][-1].fail_close = op[1] and len(outs) % 2 == 0
+                    st["writers"][-1].fail_wait_closed = op[1] and len(outs) % 2 == 1
+                loop.run_until_complete(t.disconnect())
+                outs.append("ok")
+            elif op[0] == "F":
+                if st["readers"]:
+                    st["readers"][-1].feed_data(op[1])
+                outs.append("ok")
+            elif op[0] == "E":
+                if st["readers"]:
+                    st["readers"][-1].feed_eof()
+                outs.append("ok")
+            elif op[0] == "R":
+                if st["readers"]:
+                    st["readers"][-1].fail_next = op[1]
+                task = loop.create_task(t.read())
+                spin(loop)
+                if task.done():
+                    e = task.exception()
+                    outs.append(("L " + " ".join(str(ord(ch)) for ch in task.result())).strip() if e is None else classify(e))
+                else:
+                    task.cancel()
+                    spin(loop, 2)
+                    outs.append("P")
+                if st["readers"]:
+                    st["readers"][-1].fail_next = False
+            elif op[0] == "W":
+                if st["writers"]:
+                    st["writers"][-1].fail_next = (("write", "drain")[len(outs) % 2]) if op[2] else None
+                try:
+                    loop.run_until_complete(t.write(op[1]))
+                    outs.append(("L " + " ".join(str(ord(ch)) for ch in op[1])).strip())
+                except Exception as e:  # noqa: BLE001
+                    outs.append(classify(e))
+                if st["writers"]:
+                    st["writers"][-1].fail_next = None
+        except Exception as e:  # noqa: BLE001
+            outs.append("ESCAPE " + type(e).__name__)
+    closes = sum(w.closed for w in st["writers"])
+    out = b"".join(d for d, ok in st["writers"][-1].log if ok) if st["writers"] else b""
+    return outs, closes, out
+
+
+def gen_sessions(ctx, rng):
+    lines = ["1;2;1;0;2;x\n", "7;255;3;0;0;55\n", "\u00e5\u20ac\n", "no newline", ""]
+    cases = []
+    for _ in range(ctx.budget(250, 4000)):
+        limit = rng.choice([8, 64])
+        ops = [("C", True)] if rng.random() < 0.7 else []
+        eof = False            # asyncio forbids feed_data after feed_eof on one reader
+        for _ in range(rng.randint(2, 16)):
+            x = rng.random()
+            if x < 0.16:
+                ops.append(("C", rng.random() < 0.7))
+                eof = eof and not ops[-1][1]
+            elif x < 0.28:
+                ops.append(("D", rng.random() < 0.4))
+            elif x < 0.5:
+                if not eof:
+                    ops.append(("F", bytes(rng.choice(ALPHABET) for _ in range(rng.randint(1, 12)))))
+            elif x < 0.56:
+                ops.append(("E",))
+                eof = True
+            elif x < 0.82:
+                ops.append(("R", rng.random() < 0.12))
+            else:
+                ops.append(("W", rng.choice(lines), rng.random() < 0.2))
+        cases.append((limit, ops))
+    return cases
+
+
+def enc_session(limit, ops):
+    from common import enc_str
+
+    parts = []
+    for o in ops:
+        if o[0] in ("C", "D", "R"):
+            parts.append(f"{o[0]} {1 if o[1] else 0}")
+        elif o[0] == "F":
+            parts.append(f"F {enc_bytes(o[1])}")
+        elif o[0] == "E":
+            parts.append("E")
+        else:
+            parts.append(f"W {enc_str(o[1])} {1 if o[2] else 0}")
+    return f"TS {limit} {len(ops)} " + " ".join(parts)
+
+
 def run(ctx, model_available=True):
     rng = rng_for(ctx.seed, "C17")
     loop = asyncio.new_event_loop()
@@ -352,7 +500,27 @@ def run(ctx, model_available=True):
     except Exception as e:  # noqa: BLE001
         if not isinstance(e, ex.TransportError):
             failures.append({"kind": "oracle", "sig": "C17:read-oserror", "desc": f"OSError while reading raised {type(e).__name__}", "case": {}})
+    # one transport object over its whole life, op by op against the model (Stream.trun)
+    d2 = Driver()
+    exp2 = []
+    for limit, ops in gen_sessions(ctx, rng):
+        outs_i, closes, out = run_session(loop, limit, ops)
+        dist["sessions"] = dist.get("sessions", 0) + 1
+        for o, x in zip(ops, outs_i):
+            if x.startswith("ESCAPE"):
+                failures.append({"kind": "oracle", "sig": "C17:escape-session", "desc": f"{o[0]} in a transport session raised {x[7:]} (not a transport error)",
+                                 "case": {"limit": limit, "ops": [list(map(str, o)) for o in ops]}})
+            if o[0] == "D" and x != "ok":
+                failures.append({"kind": "oracle", "sig": "C17:disconnect", "desc": f"disconnect raised ({x})", "case": {"limit": limit, "ops": [list(map(str, o)) for o in ops]}})
+        kinds.add(("session", tuple(sorted({x[:2] for x in outs_i}))))
+        d2.add(enc_session(limit, ops))
+        exp2.append((limit, ops, "".join(x + "|" for x in outs_i) + f"closes={closes} out=" + "".join(f"{b}," for b in out)))
     if model_available:
+        for (limit, ops, want), mout in zip(exp2, d2.run()):
+            if mout.strip() != want.strip():
+                failures.append({"kind": "corr", "sig": None,
+                                 "desc": f"transport session model and StreamTransport differ (limit {limit}, ops {[o[0] + (str(int(o[1])) if o[0] in 'CDR' else '') for o in ops]}): impl {want[:200]!r} model {mout[:200]!r}",
+                                 "case": {"limit": limit, "ops": [list(map(str, o)) for o in ops]}})
         outs = d.run()
         for (limit, ops, res), mout in zip(exp, outs):
             m = [x.strip() for x in mout.split("|") if x.strip() != "" or False]
